@@ -137,6 +137,8 @@ func C01(r *core.Run) {
 	rule015(r)
 	rule016(r, "C01")
 	rule017(r)
+	ruleL8(r)
+	rule019(r)
 }
 
 func rule011(r *core.Run) {
@@ -899,4 +901,118 @@ func closeOnErrorPath(r *core.Run, in ssa.Instruction) bool {
 
 func sortFuncs(r *core.Run, fns []*ssa.Function) {
 	sort.Slice(fns, func(i, j int) bool { return fname(r, fns[i]) < fname(r, fns[j]) })
+}
+
+// rule019 — request metadata is never overridden on its way to storage.
+func rule019(r *core.Run) {
+	r.Rule("R01.9", "every write into a map[string]string metadata map outside metadataHeaders either copies an entry of the request's own meta parameter into a fresh map, or is guarded by a not-found lookup of the same key in the same map (merging inherited metadata never overrides, and nothing deletes, what the request sent)")
+	n := 0
+	for _, pk := range []string{"gofakes3", "s3mem", "s3bolt", "s3afero"} {
+		for _, fn := range r.P.FuncsOfPkg(pk) {
+			name := fname(r, fn)
+			if name == "gofakes3.metadataHeaders" {
+				continue
+			}
+			f := fn
+			core.Instrs(fn, func(in ssa.Instruction) {
+				var m, k ssa.Value
+				isDelete := false
+				switch x := in.(type) {
+				case *ssa.MapUpdate:
+					m, k = x.Map, x.Key
+				case ssa.CallInstruction:
+					if b, ok := x.Common().Value.(*ssa.Builtin); ok && b.Name() == "delete" {
+						m, k = x.Common().Args[0], x.Common().Args[1]
+						isDelete = true
+					}
+				}
+				if m == nil || r.P.TypeShort(m.Type()) != "map[string]string" {
+					return
+				}
+				n++
+				key0 := key(name, "metadata map write", sprintf("#%d", n))
+				if isDelete {
+					r.Violated("R01.9", key0, pos(r, in), "an entry is deleted from a metadata map on its way to storage: a header sent with the PUT is not returned")
+					return
+				}
+				mu := in.(*ssa.MapUpdate)
+				// (c) guarded by a not-found lookup of the same key in the same map
+				guarded := false
+				for _, g := range core.GuardsOf(mu) {
+					cd := core.CondOf(g.If.Cond)
+					ex, ok := cd.X.(*ssa.Extract)
+					if !ok || ex.Index != 1 {
+						continue
+					}
+					lk, ok := ex.Tuple.(*ssa.Lookup)
+					if !ok || !lk.CommaOk {
+						continue
+					}
+					notFound := !g.Branch
+					if cd.Neg {
+						notFound = !notFound
+					}
+					if notFound && sameMapValue(lk.X, m) && lk.Index == k {
+						guarded = true
+					}
+				}
+				if guarded {
+					r.Held("R01.9", key0, pos(r, in), "merge writes only keys the request did not send")
+					return
+				}
+				// (a) copy of the request's own meta parameter into a fresh map
+				if _, fresh := m.(*ssa.MakeMap); fresh {
+					kx, ok1 := k.(*ssa.Extract)
+					vx, ok2 := mu.Value.(*ssa.Extract)
+					if ok1 && ok2 && kx.Tuple == vx.Tuple {
+						if nx, ok := kx.Tuple.(*ssa.Next); ok {
+							if rg, ok := nx.Iter.(*ssa.Range); ok {
+								src := rg.X
+								if unwrapParamMap(src, f) {
+									r.Held("R01.9", key0, pos(r, in), "copies the request's own metadata into a fresh map")
+									return
+								}
+							}
+						}
+					}
+				}
+				r.Violated("R01.9", key0, pos(r, in), "a metadata entry is written unconditionally (not under a not-found test of the same key): a value sent with the PUT can be replaced by an inherited or rewritten one and is not returned unchanged")
+			})
+		}
+	}
+	r.Floor("R01.9", 2, "metadata map writes outside metadataHeaders")
+}
+
+func sameMapValue(a, b ssa.Value) bool {
+	if a == b {
+		return true
+	}
+	return oblig.ResolveLocal(a) == oblig.ResolveLocal(b)
+}
+
+// unwrapParamMap: v is a map parameter of f or of an enclosing function
+// (captured by the closure).
+func unwrapParamMap(v ssa.Value, f *ssa.Function) bool {
+	switch x := v.(type) {
+	case *ssa.Parameter:
+		return true
+	case *ssa.FreeVar:
+		_ = x
+		return true
+	case *ssa.UnOp:
+		if fv, ok := x.X.(*ssa.FreeVar); ok {
+			_ = fv
+			return true
+		}
+		if a, ok := x.X.(*ssa.Alloc); ok {
+			for _, ref := range *a.Referrers() {
+				if st, ok := ref.(*ssa.Store); ok {
+					if _, isP := st.Val.(*ssa.Parameter); isP {
+						return true
+					}
+				}
+			}
+		}
+	}
+	return false
 }
